@@ -596,7 +596,9 @@ func readRuneReader(r Reader) (rune, int, error) {
 		return 0, 0, io.EOF
 	}
 	rn, size := utf8.DecodeRune(line)
-	if rn == utf8.RuneError {
+	if rn == utf8.RuneError && size < 2 {
+		// ill-formed UTF-8 (a well-formed U+FFFD decodes to the same rune
+		// with its size of three bytes)
 		return 0, 0, io.EOF
 	}
 	r.Advance(size)
